@@ -61,6 +61,44 @@ theorem back_to_back_nested {env : Nat → NTy} {hash : Nat → NVal → Nat} {S
   obtain ⟨d₂, I₂, g1, g2, g3, _, g5⟩ := interned_roundtrip_nested hinj hbound t₂ v₂ hw₂ hS₂ I₁ h4 rest fuel hf₂
   exact ⟨d₁, I₁, d₂, I₂, h1, g1, h2, g2, CanonH.mono g3 h5, g5⟩
 
+/-- Histories on one long-lived interner (encode / decode and keep / decode and drop / drop / vacuum, in any
+order).  EXPLICIT MODELLING HYPOTHESIS: the decoder-side interner of the theorems holds LIVE entries only — a dead
+weak entry (value interned or decoded earlier, every handle dropped, no vacuum since) counts as absent, as it does
+for the code's `intern`, `intern_unsized` and `get_from_hash`.  Under it, whatever happened before, the interner is
+the one the values alive at that moment (`alive`, any list, in any order) leave behind, `aliveInterner`; it exists,
+is in good state (`IOk`), and decoding any encoding through it round-trips exactly and canonically: the handles of
+`d` that equal a part of an alive value are that value's allocations (`Canon` in an extension of the interner).
+The harness stage `history` is the empirical counterpart: real histories on a real interner with dead entries. -/
+theorem interned_roundtrip_history {env : Nat → NTy} {hash : Nat → NVal → Nat} {S : Nat → NVal → Prop}
+    (hinj : ∀ tid p₁ p₂, S tid p₁ → S tid p₂ → hash tid p₁ = hash tid p₂ → p₁ = p₂)
+    (hbound : ∀ tid p, S tid p → hash tid p < 2 ^ 128) (fuel : Nat)
+    (alive : List (NTy × NVal))
+    (halive : ∀ tv ∈ alive, wtN env tv.1 tv.2 = true ∧ (∀ x ∈ tv.2.handles, S x.1 x.2) ∧ tv.2.need ≤ fuel)
+    (t : NTy) (v : NVal) (hwt : wtN env t v = true) (hS : ∀ x ∈ v.handles, S x.1 x.2) (hfuel : v.need ≤ fuel)
+    (rest : Bytes) :
+    ∃ I, aliveInterner env hash fuel alive [] = some I ∧ IOk hash S I ∧
+      ∃ d I', dec env hash fuel t (encodeTop env hash t v ++ rest) I = .ok (d, rest, I') ∧ d.erase = v ∧
+        NInterner.le I I' ∧ Canon hash I' d := by
+  have key : ∀ (vs : List (NTy × NVal)) (I₀ : NInterner), IOk hash S I₀ →
+      (∀ tv ∈ vs, wtN env tv.1 tv.2 = true ∧ (∀ x ∈ tv.2.handles, S x.1 x.2) ∧ tv.2.need ≤ fuel) →
+      ∃ I, aliveInterner env hash fuel vs I₀ = some I ∧ IOk hash S I := by
+    intro vs
+    induction vs with
+    | nil => intro I₀ h₀ _; exact ⟨I₀, rfl, h₀⟩
+    | cons tv vs ih =>
+      intro I₀ h₀ hall
+      obtain ⟨t', v'⟩ := tv
+      obtain ⟨h1, h2, h3⟩ := hall (t', v') List.mem_cons_self
+      obtain ⟨d, I₁, hd, _, _, hI₁, _⟩ := interned_roundtrip_nested hinj hbound t' v' h1 h2 I₀ h₀ [] fuel h3
+      obtain ⟨I, hI, hok⟩ := ih I₁ hI₁ (fun tv h => hall tv (List.mem_cons_of_mem _ h))
+      refine ⟨I, ?_, hok⟩
+      simp only [List.append_nil] at hd
+      simp only [aliveInterner, hd]
+      exact hI
+  obtain ⟨I, hI, hok⟩ := key alive [] (by intro k s p h; simp [NInterner.find] at h) halive
+  obtain ⟨d, I', h1, h2, h3, _, h5⟩ := interned_roundtrip_nested hinj hbound t v hwt hS I hok rest fuel hfuel
+  exact ⟨I, hI, hok, d, I', h1, h2, h3, h5⟩
+
 /-! ### non-vacuity: a DAG with a diamond, depth 3, recursive types, a handle inside and outside a payload -/
 
 /-- type 0 = `Node { label: u8, kids: Vec<Interned<Node>>, name: Option<Interned<String>> }`,
@@ -159,5 +197,12 @@ example : (match dec exEnv (fun _ _ => 5) 20 (.tuple [.handle 1, .handle 1])
         (.list [.handle 1 (.plain (.bytes [0x61])), .handle 1 (.plain (.bytes [0x62]))])) [] with
     | .ok (d, _, _) => d.handles.map (fun x => (x.2.1, match x.2.2 with | .plain (.bytes b) => b | _ => []))
     | .error _ => []) = [(0, [0x61]), (0, [0x61])] := by decide
+
+/-- a history: `exVal` and a lone leaf are alive; decoding `[leaf, A]`-like data then yields their allocations
+    (slot 0 = the leaf, slot 2 = A, as in the interner the alive values leave behind) and allocates nothing -/
+example : (match aliveInterner exEnv exHash 41 [(exTy, exVal), (.handle 0, leaf)] [] with
+    | some I => (match dec exEnv exHash 41 (.tuple [.handle 0, .handle 0]) (encodeTop exEnv exHash (.tuple [.handle 0, .handle 0]) (.list [leaf, nA])) I with
+        | .ok (d, _, I') => (d.handles.map (fun x => x.2.1), I.length, I'.length) | .error _ => ([], 0, 0))
+    | none => ([], 0, 0)) = ([0, 2, 0, 1], 7, 7) := by decide
 
 end QbiceVerif.Codec.C12Nested
